@@ -38,6 +38,123 @@ NE = "src/wikitextprocessor/node_expand.py"
 RECURSE = "node_expand.to_wikitext.recurse"
 
 
+def _kinds_in_node_expand(ctx, e: ast.AST):
+    """kind names of a tuple / set / dict constant defined in node_expand.py"""
+    try:
+        v = ctx.index.fold("node_expand", e)
+    except Exception:  # noqa: BLE001
+        return None
+    if isinstance(v, EnumMember):
+        return frozenset([v.name])
+    if isinstance(v, (tuple, list, set, frozenset, dict)) and v and all(isinstance(x, EnumMember) for x in v):
+        return frozenset(x.name for x in v)
+    return None
+
+
+def _specialise(ctx, stmts: list, kind: str) -> list:
+    """Partial evaluation of an emitter arm shared by several kinds for one kind K:
+    * `a, b = TABLE[kind]` with TABLE a module constant keyed by kinds -> a, b become constants;
+    * `x = node.largs` / `x = x[1:]` style aliases are inlined;
+    * `if kind == NodeKind.X:` / `if kind in (...)` sub-branches are resolved for K.
+    The rules then look at the same shape whether the emitters are written one per kind or table-driven."""
+    import copy
+
+    def subst(e, env):
+        class T(ast.NodeTransformer):
+            def visit_Name(self, n):
+                if isinstance(n.ctx, ast.Load) and n.id in env:
+                    return copy.deepcopy(env[n.id])
+                return n
+
+        return T().visit(copy.deepcopy(e))
+
+    def aliasable(v) -> bool:
+        if isinstance(v, ast.Constant):
+            return True
+        b = v
+        while isinstance(b, ast.Subscript):
+            b = b.value
+        return isinstance(b, ast.Attribute) and isinstance(b.value, ast.Name) and b.value.id == "node"
+
+    def kind_test(t):
+        """True/False if the test is decided for K, None otherwise"""
+        if isinstance(t, ast.Compare) and len(t.ops) == 1 and unparse(t.left) == "kind":
+            ks = P.kind_name(ctx, t.comparators[0]) or _kinds_in_node_expand(ctx, t.comparators[0])
+            if ks:
+                if isinstance(t.ops[0], (ast.Eq, ast.In)):
+                    return kind in ks
+                if isinstance(t.ops[0], (ast.NotEq, ast.NotIn)):
+                    return kind not in ks
+        return None
+
+    def run(stmts, env):
+        out = []
+        for st in stmts:
+            if isinstance(st, ast.Assign) and len(st.targets) == 1:
+                tg, v = st.targets[0], subst(st.value, env)
+                # table row unpacking
+                if isinstance(tg, ast.Tuple) and isinstance(st.value, ast.Subscript) and unparse(st.value.slice) == "kind" \
+                        and all(isinstance(x, ast.Name) for x in tg.elts):
+                    try:
+                        tbl = ctx.index.fold("node_expand", st.value.value)
+                    except Exception:  # noqa: BLE001
+                        tbl = None
+                    row = None
+                    if isinstance(tbl, dict):
+                        for k_, v_ in tbl.items():
+                            if isinstance(k_, EnumMember) and k_.name == kind:
+                                row = v_
+                    if isinstance(row, (tuple, list)) and len(row) == len(tg.elts):
+                        for nm, val in zip(tg.elts, row):
+                            env[nm.id] = ast.Constant(value=val)
+                        continue
+                if isinstance(tg, ast.Name) and aliasable(v):
+                    env[tg.id] = v
+                    continue
+                if isinstance(tg, ast.Name):
+                    env.pop(tg.id, None)
+                new = copy.copy(st)
+                new.value = v
+                out.append(new)
+                continue
+            if isinstance(st, ast.If):
+                d = kind_test(st.test)
+                if d is True:
+                    out.extend(run(st.body, env))
+                    continue
+                if d is False:
+                    out.extend(run(st.orelse, env))
+                    continue
+                e1, e2 = dict(env), dict(env)
+                new = copy.copy(st)
+                new.test = subst(st.test, env)
+                new.body = run(st.body, e1) or [ast.Pass()]
+                new.orelse = run(st.orelse, e2)
+                for k_ in list(env):
+                    if unparse(e1.get(k_, env[k_])) != unparse(env[k_]) or unparse(e2.get(k_, env[k_])) != unparse(env[k_]) \
+                            or k_ not in e1 or k_ not in e2:
+                        env.pop(k_, None)
+                ast.copy_location(new, st)
+                out.append(new)
+                continue
+            if isinstance(st, (ast.For, ast.While)):
+                new = copy.copy(st)
+                if isinstance(st, ast.For):
+                    new.iter = subst(st.iter, env)
+                else:
+                    new.test = subst(st.test, env)
+                new.body = run(st.body, dict(env)) or [ast.Pass()]
+                out.append(new)
+                continue
+            out.append(subst(st, env))
+        return out
+
+    res = run(stmts, {})
+    for n in res:
+        ast.fix_missing_locations(n)
+    return res
+
+
 def _emitter_arms(ctx) -> dict:
     fn = ctx.fn(RECURSE)
     arms = {}
@@ -50,14 +167,16 @@ def _emitter_arms(ctx) -> dict:
             ks = P.kind_name(ctx, t.comparators[0])
             if ks:
                 for k in ks:
-                    arms[k] = n.body
+                    arms[k] = _specialise(ctx, n.body, k) if len(ks) > 1 else n.body
         elif isinstance(t, ast.Compare) and unparse(t.left) == "kind" and isinstance(t.ops[0], ast.In):
             if unparse(t.comparators[0]) == "KIND_TO_LEVEL":
                 level_arm = n.body
             else:
-                ks = P.kind_name(ctx, t.comparators[0])
-                for k in ks or []:
-                    arms[k] = n.body
+                ks = P.kind_name(ctx, t.comparators[0]) or _kinds_in_node_expand(ctx, t.comparators[0])
+                if not ks:
+                    raise AnalysisError("to_wikitext: cannot determine the kinds of the arm `{}`".format(unparse(t)[:60]))
+                for k in ks:
+                    arms[k] = _specialise(ctx, n.body, k) if len(ks) > 1 else n.body
         if len(n.orelse) == 1 and isinstance(n.orelse[0], ast.If):
             visit(n.orelse[0])
         elif n.orelse:
@@ -127,7 +246,7 @@ def _first_literal(arm: list) -> str:
                                 for c in ast.walk(m.value):
                                     if isinstance(c, ast.Constant) and isinstance(c.value, str):
                                         return c.value
-                return "?" + unparse(a)
+                raise AnalysisError("to_wikitext: the first text an emitter writes is `{}`, which is not a literal (inconclusive)".format(unparse(a)[:40]))
     return ""
 
 
@@ -412,5 +531,56 @@ def rule_r6(ctx) -> RuleResult:
     return rr
 
 
+def rule_r8(ctx) -> RuleResult:
+    """Writer/reader agreement on empty elements: to_wikitext() writes a childless non-void HTML node
+    as `<tag attrs />` and relies on the parser closing such an element at once.  In tag_fn the flag
+    computed from the token's trailing `/>` must reach the `_parser_pop` decision unchanged (it is
+    assigned once, from the token, and the closing test reads it)."""
+    rr = RuleResult("C19.R8", "an element written as `<tag />` is closed by the parser as soon as it is opened", min_instances=2)
+    # writer side: the HTML arm emits ' />' for a childless non-void element
+    arms, _ = _emitter_arms(ctx)
+    html_arm = arms.get("HTML")
+    if html_arm is None:
+        raise AnalysisError("to_wikitext: HTML arm vanished")
+    writes_selfclosing = any(isinstance(c, ast.Constant) and isinstance(c.value, str) and c.value.strip() == "/>" for st in html_arm for c in ast.walk(st))
+    if not writes_selfclosing:
+        rr.ok(RECURSE, "the emitter never writes the self-closing form")
+        return rr
+    rr.ok(RECURSE, "childless non-void elements are written as `<tag />`")
+    fn = ctx.fn("parser.tag_fn")
+    flag_assigns = [n for n in walk_no_nested(fn) if isinstance(n, ast.Assign) and len(n.targets) == 1 and isinstance(n.targets[0], ast.Name)
+                    and isinstance(n.value, ast.Call) and isinstance(n.value.func, ast.Attribute) and n.value.func.attr == "endswith"
+                    and n.value.args and isinstance(n.value.args[0], ast.Constant) and n.value.args[0].value == "/>"]
+    if len(flag_assigns) != 1:
+        raise AnalysisError("tag_fn: the flag computed from the token's trailing '/>' was not found")
+    flag = flag_assigns[0].targets[0].id
+    others = [n for n in walk_no_nested(fn) if isinstance(n, (ast.Assign, ast.AugAssign, ast.AnnAssign)) and n is not flag_assigns[0]
+              and any(isinstance(t, ast.Name) and t.id == flag for t in (n.targets if isinstance(n, ast.Assign) else [n.target]))]
+    for n in others:
+        rr.bad(Finding("C19.R8", "src/wikitextprocessor/parser.py", "parser.tag_fn", unparse(n)[:70],
+                       "the self-closing flag `{}` is recomputed after it was read from the token: for some tags `<tag />` no longer closes the "
+                       "element, but the serialiser writes every childless element that way -- after a round trip the element swallows what follows".format(flag),
+                       n.lineno))
+    pops = [n for n in walk_no_nested(fn) if isinstance(n, ast.If) and any(isinstance(x, ast.Name) and x.id == flag for x in ast.walk(n.test))
+            and any(isinstance(c, ast.Call) and unparse(c.func) == "_parser_pop" for st in n.body for c in ast.walk(st))]
+    plain = [n for n in pops if isinstance(n.test, ast.BoolOp) and isinstance(n.test.op, ast.Or) and any(isinstance(v, ast.Name) and v.id == flag for v in n.test.values)
+             or (isinstance(n.test, ast.Name) and n.test.id == flag)]
+    if plain and not others:
+        rr.ok("parser.tag_fn", "`{}` alone suffices to close the element: {}".format(flag, unparse(plain[-1].test)), {"test": unparse(plain[-1].test)})
+    elif not plain:
+        rr.bad(Finding("C19.R8", "src/wikitextprocessor/parser.py", "parser.tag_fn", "if ... {} ...: _parser_pop".format(flag),
+                       "no closing test in which the self-closing flag alone is sufficient", fn.lineno))
+    return rr
+
+
+def rule_r7(ctx) -> RuleResult:
+    """Serialiser state (a nesting depth, an 'inside an argument list' count) is back at its entry value
+    on every exit of the function that changes it (the package-wide paired-counter lint of C16.R5,
+    restricted to node_expand)."""
+    from . import c16
+
+    return c16.paired_counter_findings(ctx, "C19.R7", only_module="node_expand")
+
+
 def run(ctx) -> list:
-    return [rule_r1(ctx), rule_r2(ctx), rule_r3(ctx), rule_r4(ctx), rule_r5(ctx), rule_r6(ctx)]
+    return [rule_r1(ctx), rule_r2(ctx), rule_r3(ctx), rule_r4(ctx), rule_r5(ctx), rule_r6(ctx), rule_r7(ctx), rule_r8(ctx)]
